@@ -27,6 +27,8 @@
       scales): with L r = the left edge the range selects for point r with that point's own bucket width (the cursor's test;
       monotone, automatically so when not strict), point i carries the function of the points L i … i; instance twoLodCtx.
       Excluded by hypothesis: a strict function whose range is narrower than a point's bucket (the code forces an empty window).
+    * over_time_is_definition_any_grid (gridCtx, Lgrid, findL_spec): for the not-strict functions the edge L is DERIVED from the
+      grid and the range on every non-decreasing grid (two-LOD grids included): no per-grid hypothesis or `decide`.
     * overtime_pushdown_two_grids (+ bucket_by_seconds, bucket_value_is_window_function, bucket_avg_is_window_avg): rule #1's
       storage pre-aggregate of the bucket [T, T+r) equals f_over_time over the one-second points of that bucket (engine window
       evaluation on the one-second grid, via over_time_is_definition) for sum/min/max, count up to the 0-vs-missing convention,
@@ -2055,5 +2057,38 @@ theorem quantile_out_of_range :
     eQuantile (-1/2) [none, none] = none ∧ eQuantile (3/2) [none] = none ∧
     eQuantile (-1/2) [none, some (.fin 7)] = some .ninf ∧ eQuantile (3/2) [some (.fin 7), none] = some .pinf ∧
     eQuantileOutOld (-1/2) [none, none] = some .ninf ∧ eQuantileOutOld (3/2) [none] = some .pinf := by decide +kernel
+
+/-- **over_time_is_definition on every non-decreasing grid, not-strict functions (avg, min, max, last), no per-grid
+    hypothesis**: with `Lgrid t w lodStep i` = the largest l ≥ 1 such that w ≤ t_i − t_l + (bucket width of point i) — derived
+    from the grid and the range alone — point i carries the function of the points Lgrid i … i (the nil value when none is
+    present) and is missing exactly where Lgrid i = 0.  A coarse LOD followed by a fine one (two-LOD time scales) is a
+    special case. -/
+theorem over_time_is_definition_any_grid (t : List Int) (w lodStep : Int) (hw : 0 < w) (hlod : 0 ≤ lodStep)
+    (hmono : ∀ i, i + 1 < t.length → tAt t i ≤ tAt t (i + 1)) (f : OtFn) (hf : otStrict f = false)
+    (v : List Val) (hv : v.length = t.length) (i : Nat) (hi : i < t.length) :
+    (overTime t w lodStep f v).getD i none =
+      if Lgrid t w lodStep i = 0 then none
+      else if (present (slice v (Lgrid t w lodStep i) i)).length = 0 then otNil f
+      else otApply f (slice v (Lgrid t w lodStep i) i) := by
+  have hlast : lodStep = (gridCtx t w lodStep hw hlod hmono).sOf ((gridCtx t w lodStep hw hlod hmono).t.length - 1) := by
+    show lodStep = sOfGrid t lodStep (t.length - 1)
+    unfold sOfGrid
+    have : ¬ (t.length - 1 + 1 < t.length) := by omega
+    simp [this]
+  exact over_time_is_definition_general (gridCtx t w lodStep hw hlod hmono) f hf.symm v hv lodStep hlast i hi
+
+/-- the two-LOD grid of `twoLodCtx` again, now without any per-grid check: the edge computed from the grid -/
+example : (List.range 6).map (Lgrid twoLodT 30 15) = [0, 1, 1, 2, 3, 4] := by decide +kernel
+example : (overTime twoLodT 30 15 .avg [some 1, some 2, some 4, none, some 8, some 16]).getD 2 none
+    = otApply .avg (slice [some 1, some 2, some 4, none, some 8, some 16] (Lgrid twoLodT 30 15 2) 2) := by
+  rw [over_time_is_definition_any_grid twoLodT 30 15 (by decide) (by decide)
+    (by intro i hi
+        have : i < 5 := by
+          have : i + 1 < 6 := hi
+          omega
+        match i, this with
+        | 0, _ | 1, _ | 2, _ | 3, _ | 4, _ => decide) .avg rfl _ rfl 2 (by decide)]
+  decide +kernel
+
 
 end SH.Props.C27
